@@ -61,3 +61,15 @@ Proof. vm_compute. repeat split; reflexivity. Qed.
 Example vacuum_generated :
   fst (solve float FS c2 100 100 1 (-10) 1 1 10 1 0) = (0%Z, 0, 0, 0).
 Proof. vm_compute. reflexivity. Qed.
+
+(* the checks above as one boolean (stated in Props/Properties_C11.v without float notations) *)
+Definition sod_checks : bool :=
+  ((st_code float sod =? 2)%Z || (st_code float sod =? 3)%Z) &&
+  (0.1 <? st_P float sod) && (st_P float sod <? 1) && (0 <? st_u float sod) &&
+  (let s x := fst (solve float FS c2 100 100 1 0 1 0.125 0 0.1 x) in
+   match s (-5), s 5, s 0 with
+   | (fl, r1, u1, p1), (fr, r2, u2, p2), (_, _, _, p0) =>
+     (fl =? -1)%Z && (r1 =? 1) && (p1 =? 1) && (fr =? 1)%Z && (r2 =? 0.125) && (p2 =? 0.1) && (p0 =? st_P float sod)
+   end).
+Example sod_checks_true : sod_checks = true.
+Proof. vm_compute. reflexivity. Qed.
